@@ -1,13 +1,185 @@
 /-
-  C21 — generated binary codecs ≡ reference encoder: property theorems (work in progress; see final file).
+  C21 — generated binary codecs are equivalent to the reference encoder.
+
+  Three layers (all for EVERY value / EVERY byte string, no size bounds):
+
+  A. the reference codec (`Sky.Codec.enc/dec/size`, transcribed from src/cipher/encoder/encoder.go and
+     tied to it by the correspondence harness): round trip, size, canonicity of exact decoding (with the
+     exact omitempty statement), error kinds and their order, decoded values respect `maxlen`;
+  B. the generated programs (`Sky.Codec.DProg/EProg/SProg` with an operational semantics that CAN panic):
+     a program equal to `refCodec t` decodes / encodes / sizes exactly like the reference and never panics;
+  C. per generated file (REGENERATED `Sky.Gen.Codecs`, `gen_X_refines … := by decide`): the 29 extracted
+     programs are the expected ones for the 29 extracted schemas, so A and B apply to each of them.
+
+  Not a theorem: that `Sky.Codec.dec/enc` is what encoder.go does and that codecgen reads the generated
+  files correctly — that is the tie (H for the former, the translator's exact shape matching for the latter).
 -/
 import Sky.Codec.Lemmas
+import Sky.Codec.ProgLemmas
 import Sky.Codec.Schemas
-import Sky.Gen.Codecs
+import Sky.Gen.CodecsThm
 namespace Sky.Props.C21
 open Sky.Codec
 
+/-! ## A. the reference codec -/
+
+/-- round trip with an arbitrary remainder (omitempty-free schemas): both decoders give back the value
+that was encoded and leave exactly the bytes that followed. -/
 theorem dec_enc (t : Ty) (hno : NoOmit t = true) (ht : TyOK t = true) (v : Val t) (hw : WF t v) (rest : Bytes) :
-    dec t (enc t v ++ rest) = .ok v rest := Sky.Codec.dec_enc true t hno ht v hw rest
+    dec t (enc t v ++ rest) = .ok v rest := Sky.Codec.dec_enc t hno ht v hw rest
+
+/-- exact round trip, also for the omitempty type. -/
+theorem decExact_enc (t : Ty) (ht : TyOK t = true) (v : Val t) (hw : WF t v) :
+    decExact t (enc t v) = .ok v := by
+  simp [decExact, Sky.Codec.dec_enc_exact t ht v hw, exact]
+
+/-- `encoder.Size` = number of bytes written. -/
+theorem size_eq_length (t : Ty) (v : Val t) (hw : WF t v) : size t v = (enc t v).length :=
+  Sky.Codec.size_eq_length t v hw
+
+/-- **exact decoding is canonical** for every schema without omitempty (28 of the 29 codecs): whenever a
+byte string decodes, re-encoding the result yields the same bytes. -/
+theorem decExact_canonical (t : Ty) (hno : NoOmit t = true) (bs : Bytes) (hb : BytesOK bs) (v : Val t)
+    (h : decExact t bs = .ok v) : enc t v = bs := by
+  have := (exact_ok_iff (dec t bs) v).1 h
+  simpa using Sky.Codec.dec_canonical t hno bs hb v [] this
+
+/-- the exact statement with omitempty (IntroductionMessage): re-encoding gives the same bytes, or the
+input carried the empty last field explicitly (`… 00 00 00 00`) and the encoder leaves it out. -/
+theorem decExact_canonical_omit (t : Ty) (ht : TyOK t = true) (bs : Bytes) (hb : BytesOK bs) (v : Val t)
+    (h : decExact t bs = .ok v) :
+    enc t v = bs ∨ (lastEmpty t v = true ∧ enc t v ++ [0, 0, 0, 0] = bs) := by
+  have := (exact_ok_iff (dec t bs) v).1 h
+  simpa using Sky.Codec.decG_canonical_omit t ht bs hb v [] this
+
+/-- F13, as a theorem about the model: canonicity really fails for IntroductionMessage. -/
+theorem intro_not_canonical :
+    ∃ bs v, decExact Schemas.IntroductionMessage bs = .ok v ∧ enc Schemas.IntroductionMessage v ≠ bs :=
+  ⟨[1, 0, 0, 0, 2, 0, 3, 0, 0, 0, 0, 0, 0, 0], (1, 2, 3, []), rfl, by decide⟩
+
+/-- decoding only depends on the bytes it consumes. -/
+theorem dec_consumes_prefix (t : Ty) (hno : NoOmit t = true) (ht : TyOK t = true) (bs : Bytes) (hb : BytesOK bs)
+    (v : Val t) (rest extra : Bytes) (h : dec t bs = .ok v rest) :
+    dec t (bs ++ extra) = .ok v (rest ++ extra) := Sky.Codec.dec_append t hno ht bs hb v rest extra h
+
+/-- whatever is decoded is a value Go can hold and respects every `maxlen` tag (maximum-length
+enforcement on the decoding side). -/
+theorem dec_wf (t : Ty) (bs : Bytes) (hb : BytesOK bs) (v : Val t) (rest : Bytes) (h : dec t bs = .ok v rest) :
+    WF t v := (Sky.Codec.dec_wf t bs hb v rest h).1
+
+/-- error kinds of the plain decoder: never `ErrRemainingBytes`; `ErrInvalidBool` only with a bool field;
+`ErrMaxLenExceeded` only with a maxlen tag. -/
+theorem dec_error_kind (t : Ty) (bs : Bytes) (e : DecErr) (k : Nat) (h : dec t bs = .err e k) :
+    e ≠ .remaining ∧ (e = .invalidBool → HasBool t = true) ∧ (e = .maxlen → HasMaxLen t = true) :=
+  Sky.Codec.dec_err_kinds t bs e k h
+
+/-- `ErrRemainingBytes` exactly when the plain decoder succeeds and leaves bytes. -/
+theorem decExact_remaining_iff (t : Ty) (bs : Bytes) :
+    decExact t bs = .error .remaining ↔ ∃ v b rest, dec t bs = .ok v (b :: rest) :=
+  Sky.Codec.exact_remaining_iff t bs
+
+/-- order of the checks: a length prefix that exceeds the rest of the buffer is `ErrBufferUnderflow`
+even if it also exceeds maxlen … -/
+theorem dec_underflow_before_maxlen (m : Nat) (t : Ty) (len : Nat) (body : Bytes)
+    (h1 : len < 2 ^ 32) (h2 : body.length < len) :
+    dec (.slice m t) (leBytes 4 len ++ body) = .err .underflow body.length :=
+  Sky.Codec.dec_slice_underflow_first m t len body h1 h2
+
+/-- … and a satisfiable one above maxlen is `ErrMaxLenExceeded` before any element is read. -/
+theorem dec_maxlen (m : Nat) (t : Ty) (len : Nat) (body : Bytes)
+    (h1 : len < 2 ^ 32) (h2 : len ≤ body.length) (hm : 0 < m) (h3 : m < len) :
+    dec (.slice m t) (leBytes 4 len ++ body) = .err .maxlen body.length :=
+  Sky.Codec.dec_slice_maxlen m t len body h1 h2 hm h3
+
+/-- the generated encoder's bytes are the reference encoder's bytes … -/
+theorem encG_ok_eq_enc (t : Ty) (v : Val t) (b : Bytes) (h : encG t v = .ok b) : b = enc t v :=
+  Sky.Codec.encG_ok t v b h
+
+/-- … it refuses exactly when a tagged field exceeds its maxlen … -/
+theorem enc_maxlen_iff (t : Ty) (v : Val t) (hl : LenOK t v) : encG t v = .error .maxlen ↔ ¬ MaxLenOK t v :=
+  Sky.Codec.encG_maxlen_iff t v hl
+
+/-- … and accepts every well-formed value. -/
+theorem encG_of_wf (t : Ty) (v : Val t) (hw : WF t v) : encG t v = .ok (enc t v) :=
+  Sky.Codec.encG_of_wf t v hw
+
+/-! non-vacuity: a concrete two-output transaction meets every hypothesis above -/
+section Examples
+open Schemas
+
+def exOut : Val TransactionOutput := ((0, List.replicate 20 7), 1000000, 5)
+def exTxn : Val Transaction :=
+  (220, 0, List.replicate 32 1, [List.replicate 65 2], [List.replicate 32 3], [exOut, exOut])
+
+example : NoOmit Transaction = true ∧ TyOK Transaction = true := by decide
+example : WF Transaction exTxn := by
+  simp [WF, exTxn, exOut]
+example : decExact Transaction (enc Transaction exTxn) = .ok exTxn := rfl
+example : (enc Transaction exTxn).length = 220 ∧ size Transaction exTxn = 220 := ⟨rfl, rfl⟩
+example : TyOK IntroductionMessage = true ∧ NoOmit IntroductionMessage = false := by decide
+/-- maxlen: three elements in a `maxlen=2` slice are refused by the generated encoder, and the reference
+encoding of that value is refused by the decoder -/
+example : encG (.slice 2 IPAddr) [(1, 2), (3, 4), (5, 6)] = .error .maxlen := rfl
+example : dec (.slice 2 IPAddr) (enc (.slice 2 IPAddr) [(1, 2), (3, 4), (5, 6)]) = .err .maxlen 18 := rfl
+/-- an invalid bool and a truncated length prefix give their own kinds -/
+example : dec (.pair .bool .u8) [2, 0] = .err .invalidBool 1 := rfl
+example : dec (.bytes 0) [5, 0, 0, 0, 1] = .err .underflow 1 := rfl
+end Examples
+
+/-! ## B + C. the 29 generated codecs -/
+
+/-- the regenerated table of generated codecs: every extracted program is the expected program of its
+extracted schema, and every schema satisfies the side conditions of the generic theorems. -/
+theorem all_refine : ∀ e ∈ Sky.Gen.Codecs.all,
+    denote e.2.2 = refCodec e.2.1 ∧ TyOK e.2.1 = true := by decide
+
+/-- 29 generated files, and only IntroductionMessage has an omitempty field. -/
+theorem all_count : Sky.Gen.Codecs.all.length = 29 := by decide
+theorem all_noOmit_except_intro : ∀ e ∈ Sky.Gen.Codecs.all,
+    e.1 ≠ "daemon_IntroductionMessage" → NoOmit e.2.1 = true := by decide
+
+/-- **generated `decodeX` ≡ `encoder.DeserializeRaw`** on every byte string, for each of the 29 codecs:
+same value, same consumed length, same error kind. -/
+theorem gen_decode_eq_ref (name : String) (t : Ty) (g : GenCodec) (h : (name, t, g) ∈ Sky.Gen.Codecs.all)
+    (bs : Bytes) : runDecode t g.dec bs = ofDRes (dec t bs) :=
+  runDecode_refCodec t (all_refine _ h).2 g (all_refine _ h).1 bs
+
+/-- **no generated decoder panics**, on any byte string. -/
+theorem gen_decode_never_panics (name : String) (t : Ty) (g : GenCodec) (h : (name, t, g) ∈ Sky.Gen.Codecs.all)
+    (bs : Bytes) : ∀ w, runDecode t g.dec bs ≠ .panic w :=
+  (runDecode_total t (all_refine _ h).2 g (all_refine _ h).1 bs).1
+
+/-- **generated `encodeX` ≡ `encoder.Serialize` + maxlen enforcement**, and it never panics. -/
+theorem gen_encode_eq_ref (name : String) (t : Ty) (g : GenCodec) (h : (name, t, g) ∈ Sky.Gen.Codecs.all)
+    (v : Val t) (hw : WF t v) : runEncode t g v = .ok (enc t v) := by
+  rw [runEncode_refCodec t g (all_refine _ h).1 v (wf_shapeOK t v hw), Sky.Codec.encG_of_wf t v hw]; rfl
+
+/-- … including the refusals: for every value Go can hold (maxlen NOT assumed) the generated encoder
+returns `ErrMaxLenExceeded` exactly when `encG` does (`enc_maxlen_iff`), else the reference bytes. -/
+theorem gen_encode_eq_encG (name : String) (t : Ty) (g : GenCodec) (h : (name, t, g) ∈ Sky.Gen.Codecs.all)
+    (v : Val t) (hw : ShapeOK t v) : runEncode t g v = ofExcept (encG t v) :=
+  runEncode_refCodec t g (all_refine _ h).1 v hw
+
+/-- **generated `encodeSizeX` ≡ `encoder.Size`**. -/
+theorem gen_size_eq_ref (name : String) (t : Ty) (g : GenCodec) (h : (name, t, g) ∈ Sky.Gen.Codecs.all)
+    (v : Val t) : runSizeOf t g.size v = some (size t v) :=
+  runSizeOf_refCodec t g (all_refine _ h).1 v
+
+/-- canonicity for the 28 omitempty-free generated codecs, through the generated decoder's semantics:
+if generated `decodeXExact` accepts `bs` with value `v` then `encoder.Serialize v = bs`. -/
+theorem gen_decodeExact_canonical (name : String) (t : Ty) (g : GenCodec) (h : (name, t, g) ∈ Sky.Gen.Codecs.all)
+    (hn : name ≠ "daemon_IntroductionMessage") (bs : Bytes) (hb : BytesOK bs) (v : Val t)
+    (hd : runDecode t g.dec bs = .ok (v, [])) : enc t v = bs := by
+  rw [gen_decode_eq_ref name t g h bs] at hd
+  have hno := all_noOmit_except_intro _ h hn
+  cases hdec : dec t bs with
+  | err e k => rw [hdec] at hd; cases hd
+  | ok v' r =>
+    rw [hdec] at hd; simp only [ofDRes] at hd
+    injection hd with hd; injection hd with h1 h2; subst h1 h2
+    simpa using Sky.Codec.dec_canonical t hno bs hb v' [] hdec
+
+example : ("coin_Transaction", Sky.Gen.Codecs.ty_coin_Transaction, Sky.Gen.Codecs.prog_coin_Transaction)
+    ∈ Sky.Gen.Codecs.all := by decide
 
 end Sky.Props.C21
